@@ -47,7 +47,10 @@ type C14Payload struct {
 	ErrAt      int              `json:"err_at,omitempty"` // inject a read error after this many bytes (0 = no such run)
 	ErrKind    string           `json:"err_kind,omitempty"`
 	ErrWith    bool             `json:"err_with_data,omitempty"`
-	Stall      int              `json:"stall,omitempty"` // consecutive zero-byte reads at the start of a run (0 = none)
+	Stall      int              `json:"stall,omitempty"`    // consecutive zero-byte reads at the start of a run (0 = none)
+	OpenErr    string           `json:"open_err,omitempty"` // ParseFile: the open fails with this error ("" = no such run)
+	FlipAt     int              `json:"flip_at,omitempty"`  // torn family: instead of a crash, one stored byte is changed (position+1; 0 = none)
+	FlipTo     int              `json:"flip_to,omitempty"`
 	Arbitrary  BStr             `json:"arbitrary,omitempty"`
 	// LateIgnore: the IniParser is constructed while the parser's IgnoreUnknown
 	// bit has the opposite value; the bit is flipped to its declared value before
@@ -599,6 +602,9 @@ func (propC14) Gen(r *Rng, idx int, tier string) *Scenario {
 	if cr.Chance(1, 10) {
 		p.Stall = cr.Pick2([]int{5, 50, 99, 100, 101, 150})
 	}
+	if cr.Chance(1, 12) {
+		p.OpenErr = cr.Pick([]string{"ENOENT", "EACCES", "EIO"})
+	}
 	return sc
 }
 
@@ -672,6 +678,11 @@ func genC14Torn(r *Rng, sc *Scenario) {
 		p.CrashAfter = 1
 		return
 	}
+	if r.Chance(1, 3) {
+		// not a crash: one stored byte goes bad
+		p.FlipAt = r.Range(1, len(f))
+		p.FlipTo = r.Pick2([]int{0, 0xff, '\n', '"', '=', '[', ']', ':', ';', ' ', 0x80, '\\'})
+	}
 	switch r.Intn(4) {
 	case 0: // at a write boundary
 		sizes := full.Stats
@@ -707,6 +718,15 @@ func c14TornRun(sc *Scenario, crashAfter int) *Outcome {
 }
 
 func lastOp(o *Outcome) *OpResult { return &o.Ops[len(o.Ops)-1] }
+
+func lastOpCrashed(o *Outcome) bool {
+	for _, r := range o.Ops {
+		if r.Crash {
+			return true
+		}
+	}
+	return false
+}
 
 func abnormal(r *OpResult) string {
 	switch {
@@ -969,6 +989,26 @@ func (propC14) Judge(sc *Scenario) *Verdict {
 			v.NotJudged = "complete file not readable (round-trip is C12's business)"
 			break
 		}
+		if p.FlipAt > 0 {
+			// stored byte corrupted: the read must return normally and must not depend on read sizes
+			pos := p.FlipAt - 1
+			if pos >= len(f) {
+				pos = len(f) - 1
+			}
+			data := f[:pos] + string([]byte{byte(p.FlipTo)}) + f[pos+1:]
+			ra := run("one stored byte corrupted", data, nil, 0)
+			if v.OK {
+				rb := run("one stored byte corrupted/fragmented", data, p.ChunksB, p.RestB)
+				if v.OK && !sameRead(ra, rb) {
+					v.fail("c14:chunking-changes-result", fmt.Sprintf("the same bytes delivered in different read sizes gave different results:\n  one chunk: %s\n  fragmented: %s\ninput: %s", readSummary(ra), readSummary(rb), q(clip(data, 1200))))
+				}
+			}
+			v.stat("probe.stored-byte-corrupted")
+			outcome = "corrupt:" + ra.Err
+			parsedEntry = strings.Contains(data, "=")
+			noisePresent = true
+			break
+		}
 		k := p.CrashAfter
 		if k >= len(f) {
 			k = len(f) - 1
@@ -989,8 +1029,18 @@ func (propC14) Judge(sc *Scenario) *Verdict {
 			break
 		}
 		got := string(torn.Files["cfg.ini"])
+		if !lastOpCrashed(torn) {
+			v.Trouble = fmt.Sprintf("the simulated crash after %d bytes did not happen", k)
+			break
+		}
 		if got != f[:k] {
-			v.Trouble = fmt.Sprintf("simulated disk inconsistency: torn file is not the %d-byte prefix of the complete file", k)
+			// the writer does not write the final path in place (e.g. temporary file
+			// + rename): whatever is there, reading it must return normally
+			v.stat("probe.torn-file-not-a-prefix")
+			if ab := abnormal(lastOp(torn)); ab != "" {
+				v.fail("c14:abnormal:"+strings.SplitN(ab, ":", 2)[0], fmt.Sprintf("reading the configuration after a crash during WriteFile did not return normally: %s", ab))
+			}
+			outcome = "torn:not-in-place"
 			break
 		}
 		rt := lastOp(torn)
@@ -1042,6 +1092,20 @@ func (propC14) Judge(sc *Scenario) *Verdict {
 							p.ErrKind, at, len(text), at, readSummary(r), readSummary(pre), q(clip(text[:at], 800))))
 					}
 				}
+			}
+		}
+		if v.OK && p.OpenErr != "" {
+			s2 := *sc
+			s2.World.Files = map[string]BStr{"in.ini": BStr(text)}
+			s2.Ops = []Op{{Kind: "iniread", File: "in.ini", OpenErr: p.OpenErr}}
+			o := Execute(&s2, nil)
+			v.Evals++
+			v.addStats(o.Stats)
+			r := lastOp(o)
+			if ab := abnormal(r); ab != "" {
+				v.fail("c14:abnormal:"+strings.SplitN(ab, ":", 2)[0], "ParseFile on a file that cannot be opened ("+p.OpenErr+") did not return normally: "+ab)
+			} else if r.Err == "" {
+				v.fail("c14:open-error-ignored", "ParseFile reported success although the file could not be opened ("+p.OpenErr+")")
 			}
 		}
 		if v.OK && p.Stall > 0 {
@@ -1203,6 +1267,9 @@ func (propC14) Reductions(sc *Scenario) []func(*Scenario) bool {
 			s.C14.Stores = append(s.C14.Stores[:i:i], s.C14.Stores[i+1:]...)
 			return true
 		})
+	}
+	if p.FlipAt > 0 {
+		out = append(out, func(s *Scenario) bool { s.C14.FlipAt = 0; return true })
 	}
 	if p.Source == "torn" && p.IniOpts != 0 {
 		out = append(out, func(s *Scenario) bool { s.C14.IniOpts = 0; return true })
